@@ -1040,53 +1040,8 @@ theorem Rtu.extractFrame_pdu (raw : Bytes) (n : Nat) (f : Rtu.Frame)
 
 theorem Tcp.extractFrame_pdu (raw : Bytes) (n : Nat) (f : Tcp.Frame)
     (h : Tcp.extractFrame raw n = .ok (some f)) : f.pdu = (raw.drop 7).take n ∧ n + 7 ≤ raw.length := by
-  unfold Tcp.extractFrame at h
-  by_cases he : raw.isEmpty
-  · rw [if_pos he] at h; cases h
-  rw [if_neg he] at h
-  by_cases ho : 7 + n ≥ usizeLimit
-  · rw [if_pos ho] at h; cases h
-  rw [if_neg ho] at h
-  simp only at h
-  by_cases hl : raw.length ≥ 7 + n
-  · rw [if_pos hl] at h
-    cases hp : read16 (raw.take (7 + n)) 2 with
-    | err e => rw [hp] at h; cases h
-    | panic => rw [hp] at h; cases h
-    | ok p =>
-      rw [hp] at h
-      simp only [Res.bind'_ok] at h
-      by_cases hc : (p != 0) = true
-      · rw [if_pos hc] at h; cases h
-      rw [if_neg hc] at h
-      cases ht : read16 (raw.take (7 + n)) 0 with
-      | err e => rw [ht] at h; cases h
-      | panic => rw [ht] at h; cases h
-      | ok t =>
-        rw [ht] at h
-        simp only [Res.bind'_ok] at h
-        cases hm : read16 (raw.take (7 + n)) 4 with
-        | err e => rw [hm] at h; cases h
-        | panic => rw [hm] at h; cases h
-        | ok m =>
-          rw [hm] at h
-          simp only [Res.bind'_ok] at h
-          cases hu : idx (raw.take (7 + n)) 6 with
-          | err e => rw [hu] at h; cases h
-          | panic => rw [hu] at h; cases h
-          | ok u =>
-            rw [hu] at h
-            simp only [Res.bind'_ok] at h
-            by_cases hlen : m.toNat ≠ n + 1
-            · rw [if_pos hlen] at h; cases h
-            rw [if_neg hlen] at h
-            simp only [Res.ok.injEq, Option.some.injEq] at h
-            subst h
-            refine ⟨?_, by omega⟩
-            show (raw.take (7 + n)).drop 7 = (raw.drop 7).take n
-            rw [List.drop_take]
-            congr 1; omega
-  · rw [if_neg hl] at h; cases h
+  obtain ⟨hl, _, _, rfl⟩ := Tcp.extractFrame_some h
+  exact ⟨rfl, by omega⟩
 
 /-- the PDU of a frame found by the RTU scan is the `n` bytes after the slave byte at `loc.start` -/
 theorem Rtu.scan_pdu_slice (att : Attempt Rtu.Frame) (predict : Bytes → Res (Option Nat))
